@@ -130,10 +130,43 @@ def generalBad (wxy wuv : Option (List K)) : Bool :=
   | some ws => anyNeg ws || decide (countPos ws < 3)
   | none => false
 
-/-- `fit_general`: normal equations solved with `inv` -/
-def fitGeneral (eps : K) (obs : List (Obs K)) (wxy wuv : Option (List K)) : Except FitErr (Lin K) :=
+/-- the (weighted) second central moments of the `uv` points -/
+structure UVMom (K : Type) where
+  cuu : K
+  cvv : K
+  cuv : K
+
+/-- `du = u - su/sw`, `dv = v - sv/sw`, `cuu = np.dot(w, du*du)`, `cvv = np.dot(w, dv*dv)`,
+`cuv = np.dot(w, du*dv)` (`w` = 1 each in the unweighted branch, where the code writes
+`np.dot(du, du)` …) -/
+def cmoments (ws : List K) (obs : List (Obs K)) (s : GSums K) : UVMom K :=
+  { cuu := dotL ws (mulL (obs.map fun o => o.u - s.su / s.sw) (obs.map fun o => o.u - s.su / s.sw))
+    cvv := dotL ws (mulL (obs.map fun o => o.v - s.sv / s.sw) (obs.map fun o => o.v - s.sv / s.sw))
+    cuv := dotL ws (mulL (obs.map fun o => o.u - s.su / s.sw) (obs.map fun o => o.v - s.sv / s.sw)) }
+
+/-- the two sides of the collinearity test: `cuu*cvv - cuv**2` and `epsD * (0.5*(cuu + cvv))**2` -/
+def UVMom.det (c : UVMom K) : K := c.cuu * c.cvv - c.cuv * c.cuv
+def UVMom.bound (epsD : K) (c : UVMom K) : K :=
+  epsD * ((halfK * (c.cuu + c.cvv)) * (halfK * (c.cuu + c.cvv)))
+
+/-- the guard of `fit_general` against collinear or coincident points:
+`(cuu*cvv - cuv**2) <= eps_double * (0.5*(cuu + cvv))**2`, with `eps_double` a parameter (`2^-52`
+in the code).  `a <= b` is evaluated as `not (b < a)`: the same on every pair of numbers (they
+differ on NaN only; non-finite input is outside the model, see the assumptions of C06/C07). -/
+def collinearGuard (epsD : K) (c : UVMom K) : Bool := !decide (c.bound epsD < c.det)
+
+/-- the guard on the data of a call -/
+def generalGuard (epsD : K) (obs : List (Obs K)) (wxy wuv : Option (List K)) : Bool :=
+  collinearGuard epsD
+    (cmoments (generalW obs wxy wuv) obs (gsums (generalW obs wxy wuv) obs))
+
+/-- `fit_general`: weights checks, the collinearity guard, then the normal equations solved with
+`inv` (`eps`: pivot threshold of `inv`; `epsD`: threshold of the collinearity guard) -/
+def fitGeneral (eps epsD : K) (obs : List (Obs K)) (wxy wuv : Option (List K)) :
+    Except FitErr (Lin K) :=
   if obs.length < 3 then .error .notEnoughPoints
   else if generalBad wxy wuv then .error .badWeights
+  else if generalGuard epsD obs wxy wuv then .error .singular
   else gsolve eps (gsums (generalW obs wxy wuv) obs)
 
 /-! ### `fit_rscale` / `fit_rshift` -/
